@@ -129,12 +129,13 @@ Qed.
 
 (* ------------------------------------------------------------------ the buffers behind the table: one struct lbuf per occupied slot *)
 Definition hent : Type := (nat * block * lbuf)%type.      (* block index of the struct, its cells, the model state it represents *)
-Definition slot_heap (m : mem) (cs : cslot) (h : option hent) : Prop :=
+(* B: the bound on the command counters (lb->useq++ must not overflow: B <= INT_MAX for one bump, INT_MAX - 1 for the two a quit can make) *)
+Definition slot_heap (B : Z) (m : mem) (cs : cslot) (h : option hent) : Prop :=
   match h with
   | None => cs_lb cs = VInt 0
-  | Some (bl, blk, lb) => cs_lb cs = VPtr bl 0 /\ lbuf_rep m bl blk lb /\ lbuf_ints lb /\ useq lb < 2147483646
+  | Some (bl, blk, lb) => cs_lb cs = VPtr bl 0 /\ lbuf_rep m bl blk lb /\ lbuf_ints lb /\ useq lb < B
   end.
-Definition heap_at (m : mem) (t : list cslot) (hp : list (option hent)) : Prop := Forall2 (slot_heap m) t hp.
+Definition heap_at (B : Z) (m : mem) (t : list cslot) (hp : list (option hent)) : Prop := Forall2 (slot_heap B m) t hp.
 Fixpoint hblocks (l : list (option hent)) : list nat :=
   match l with [] => [] | None :: r => hblocks r | Some (bl, _, _) :: r => bl :: hblocks r end.
 Definition hist_ptr (blk : block) (bh : nat) : Prop := nth_error blk L_hist = Some (VPtr bh 0).
@@ -158,9 +159,9 @@ Proof.
   - split; [exact Hn|]. split; [exact Hr|]. intros b k x bh Hin Hp. apply (Hh b k x bh); [right; exact Hin|exact Hp].
 Qed.
 (* a bump of one struct keeps what the other slots see *)
-Lemma slot_heap_frame m cs h bl blk lb : slot_heap m cs h -> (bl < length m)%nat ->
+Lemma slot_heap_frame B m cs h bl blk lb : slot_heap B m cs h -> (bl < length m)%nat ->
   (forall b k x, h = Some (b, k, x) -> b <> bl /\ forall bh, hist_ptr k bh -> bh <> bl) ->
-  slot_heap (bump_mem m bl blk lb) cs h.
+  slot_heap B (bump_mem m bl blk lb) cs h.
 Proof.
   intros H Hlt Hsep. destruct h as [[[b k] x]|]; [|exact H]. destruct H as (Hc & R & Hi & Hu).
   destruct (Hsep b k x eq_refl) as [Hne Hh]. split; [exact Hc|]. split; [|split; assumption].
@@ -168,8 +169,8 @@ Proof.
   - unfold bump_mem. apply mem_upd_other; assumption.
   - intros bh hblk Hp Hb. unfold bump_mem. rewrite mem_upd_other; [exact Hb|exact Hlt|apply Hh; exact Hp].
 Qed.
-Lemma heap_tail_frame res m ts l bl blk lb : Forall2 (slot_heap m) ts l -> sep res (Some (bl, blk, lb) :: l) -> (bl < length m)%nat ->
-  Forall2 (slot_heap (bump_mem m bl blk lb)) ts l.
+Lemma heap_tail_frame B res m ts l bl blk lb : Forall2 (slot_heap B m) ts l -> sep res (Some (bl, blk, lb) :: l) -> (bl < length m)%nat ->
+  Forall2 (slot_heap B (bump_mem m bl blk lb)) ts l.
 Proof.
   intros H (Hn & Hr & Hh) Hlt. cbn [hblocks] in *. inversion Hn as [|? ? Hnin Hn']; subst.
   assert (Hall : forall h, In h l -> forall b k x, h = Some (b, k, x) -> b <> bl /\ forall bh, hist_ptr k bh -> bh <> bl).
@@ -205,11 +206,13 @@ Section Quit.
   Variables (t : list cslot) (cb : nat) (cmd : bytes) (loc arg txt : val) (d fuel : nat).
   Hypothesis Ht : tab_ok t.
   Hypothesis Ncmd : nonul cmd.
+  Variable B : Z.
+  Hypothesis HB : B <= 2147483647.
   Let res := [G_bufs; G_xaw; G_xquit; cb].
   Let call := callx ext cprog fuel (S (S (S d))).
 
   Lemma quit_scan_ok : find_byte 97 cmd = None -> find_byte 33 cmd = None ->
-    forall l ts i m fuel' l5 l6, skipn i t = ts -> Forall2 (slot_heap m) ts l -> sep res l -> (i + length ts = 16)%nat -> (length ts < fuel')%nat ->
+    forall l ts i m fuel' l5 l6, skipn i t = ts -> Forall2 (slot_heap B m) ts l -> sep res l -> (i + length ts = 16)%nat -> (length ts < fuel')%nat ->
     tab_at m t -> cell_at m G_xaw 0 -> str_at m cb cmd ->
     match cq l i m with
     | (m1, None) => exec call fuel' quit_loop (mkst [loc; VPtr cb 0; arg; txt; VInt (Z.of_nat i); l5; l6] m)
@@ -232,7 +235,7 @@ Section Quit.
       assert (Hcs : nths t i = cs) by (rewrite (nths_skipn t i) in E by lia; congruence).
       assert (Ets : skipn (S i) t = ts') by (rewrite (nths_skipn t i) in E by lia; congruence).
       destruct (Z.ltb_spec (Z.of_nat i) 16); [|lia]. xstep.
-      assert (Hnext : forall m' l5' l6', Forall2 (slot_heap m') ts' l -> tab_at m' t -> cell_at m' G_xaw 0 -> str_at m' cb cmd ->
+      assert (Hnext : forall m' l5' l6', Forall2 (slot_heap B m') ts' l -> tab_at m' t -> cell_at m' G_xaw 0 -> str_at m' cb cmd ->
         match cq l (S i) m' with
         | (m1, None) => exec (callx ext cprog fuel (S (S (S d)))) fuel' quit_loop (mkst [loc; VPtr cb 0; arg; txt; VInt (Z.of_nat (S i)); l5'; l6'] m')
                         = ONormal (mkst [loc; VPtr cb 0; arg; txt; VInt 16; l5'; l6'] m1)
@@ -267,7 +270,7 @@ Section Quit.
         * rewrite (tr_bufs_modified_clean ext m t i bl blk lb (VPtr G_bm 0) d fuel Hm Ht ltac:(lia) Hlb R Hints ltac:(lia) Hfl).
           xstep. fold m1. rewrite (strchr0 m1 cb cmd 97 97 eq_refl Hcmd1 Ncmd) by lia. rewrite Ha. xstep.
           rewrite chk_I32 by lia. xstep. replace (Z.of_nat i + 1) with (Z.of_nat (S i)) by lia.
-          assert (Hh1 : Forall2 (slot_heap m1) ts' l) by (apply (heap_tail_frame res m ts' l bl blk lb Hrest); [repeat split; assumption|exact Hlt]).
+          assert (Hh1 : Forall2 (slot_heap B m1) ts' l) by (apply (heap_tail_frame B res m ts' l bl blk lb Hrest); [repeat split; assumption|exact Hlt]).
           specialize (Hnext m1 l5 l6 Hh1 Hm1 Haw1 Hcmd1). destruct (cq l (S i) m1) as [m9 [j|]]; [intros u1 m2 u2 m' Hshow Hsw; apply (Hnext u1 m2 u2 m' Hshow Hsw)|exact Hnext].
       + (* an empty slot *)
         rewrite <- Hcs in Hx.
@@ -300,7 +303,7 @@ Section Quit.
   Qed.
 
   (* the scan touches the structs of the occupied slots only *)
-  Lemma cq_other : forall l ts i m b, Forall2 (slot_heap m) ts l -> sep res l -> ~ In b (hblocks l) ->
+  Lemma cq_other : forall l ts i m b, Forall2 (slot_heap B m) ts l -> sep res l -> ~ In b (hblocks l) ->
     nth_error (fst (cq l i m)) b = nth_error m b.
   Proof.
     induction l as [|h l IH]; intros ts i m b Hh Hsep Hnin; [reflexivity|].
@@ -308,7 +311,7 @@ Section Quit.
     - destruct Hx as (Hlb & R & Hints & Hmax). pose proof (rep_lt _ _ _ _ R) as Hlt.
       assert (Hb : nth_error (bump_mem m bl blk lb) b = nth_error m b) by (unfold bump_mem; apply mem_upd_other; [exact Hlt|intro E; apply Hnin; left; congruence]).
       destruct (snd (lbuf_modified lb)); cbn [fst]; [exact Hb|].
-      rewrite (IH ts' (S i) (bump_mem m bl blk lb) b); [exact Hb|apply (heap_tail_frame res m ts' l bl blk lb Hrest Hsep Hlt)|exact (sep_tail _ _ _ Hsep)|intro E; apply Hnin; right; exact E].
+      rewrite (IH ts' (S i) (bump_mem m bl blk lb) b); [exact Hb|apply (heap_tail_frame B res m ts' l bl blk lb Hrest Hsep Hlt)|exact (sep_tail _ _ _ Hsep)|intro E; apply Hnin; right; exact E].
     - apply (IH ts' (S i) m b Hrest (sep_tail _ _ _ Hsep) Hnin).
   Qed.
 End Quit.
@@ -368,9 +371,9 @@ Qed.
    order; every occupied slot's buffer is asked (its counter bumped) up to the first one reported modified -- cq --; if there is none,
    xquit = 1 is stored and 0 returned; if slot j is the first, "buffer modified" goes to ex_show, bufs_switch(j) runs, 0 is returned
    and xquit is NOT stored: the memory is exactly what bufs_switch left *)
-Theorem tr_ec_quit_scan ext m mw t hp cb cmd loc arg txt q0 d fuel : str_at m cb cmd -> nonul cmd -> ptr_val arg ->
+Theorem tr_ec_quit_scan ext m mw t hp cb cmd loc arg txt q0 B d fuel : B <= 2147483647 -> str_at m cb cmd -> nonul cmd -> ptr_val arg ->
   write_part ext cb cmd arg m 0 mw ->
-  tab_at mw t -> tab_ok t -> heap_at mw t hp -> sep [G_bufs; G_xaw; G_xquit; cb] hp ->
+  tab_at mw t -> tab_ok t -> heap_at B mw t hp -> sep [G_bufs; G_xaw; G_xquit; cb] hp ->
   cell_at mw G_xaw 0 -> cell_at mw G_xquit q0 -> str_at mw cb cmd ->
   find_byte 97 cmd = None -> find_byte 33 cmd = None -> (16 < fuel)%nat ->
   match cq hp 0 mw with
@@ -380,10 +383,10 @@ Theorem tr_ec_quit_scan ext m mw t hp cb cmd loc arg txt q0 d fuel : str_at m cb
       callx ext cprog fuel (S (S (S (S d)))) F_ec_quit [loc; VPtr cb 0; arg; txt] m = Ok (VInt 0, m')
   end.
 Proof.
-  intros Hcmd Ncmd Harg Hw Hm Ht Hh Hsep Haw Hq Hcmdw Ha Hb Hf.
-  pose proof (quit_scan_ok ext t cb cmd loc arg txt d fuel Ht Ncmd Ha Hb hp t 0 mw fuel VUndef VUndef eq_refl Hh Hsep
+  intros HB Hcmd Ncmd Harg Hw Hm Ht Hh Hsep Haw Hq Hcmdw Ha Hb Hf.
+  pose proof (quit_scan_ok ext t cb cmd loc arg txt d fuel Ht Ncmd B HB Ha Hb hp t 0 mw fuel VUndef VUndef eq_refl Hh Hsep
                 ltac:(destruct Ht as [Hl _]; cbn; lia) ltac:(destruct Ht as [Hl _]; lia) Hm Haw Hcmdw) as Hloop.
-  pose proof (cq_other cb hp t 0 mw G_xquit Hh Hsep) as Hoth.
+  pose proof (cq_other cb B hp t 0 mw G_xquit Hh Hsep) as Hoth.
   destruct (cq hp 0 mw) as [m1 [j|]].
   - intros u1 m2 u2 m' Hshow Hsw. specialize (Hloop u1 m2 u2 m' Hshow Hsw).
     apply (quit_head ext m cb cmd loc arg txt 0 mw d fuel _ Hcmd Ncmd Harg Hw). cbn [Z.eqb].
@@ -411,3 +414,158 @@ Proof.
   unfold quit_loop in Hloop; cbn [fn_body cf_ec_quit] in Hloop. change (Z.of_nat 0) with 0 in Hloop. rewrite Hloop. xstep.
   change (wrap I32 1) with 1. rewrite (store_cell mw G_xquit q0 1 Hq). xstep. reflexivity.
 Qed.
+
+(* ------------------------------------------------------------------ the heap after the scan; the scan against DirtyDefs.quit_tab *)
+From NV Require DirtyDefs.
+Definition hbump (h : option hent) : option hent :=
+  match h with Some (bl, blk, lb) => Some (bl, bumped blk lb, UndoDefs.bump lb) | None => None end.
+Definition hflag (h : option hent) : bool := match h with Some (_, _, lb) => snd (lbuf_modified lb) | None => false end.
+(* the entries after the scan: bumped up to and including the first one reported modified *)
+Fixpoint cq_hp (l : list (option hent)) : list (option hent) :=
+  match l with
+  | [] => []
+  | h :: r => if hflag h then hbump h :: r else hbump h :: cq_hp r
+  end.
+Definition cq_idx (l : list (option hent)) : option nat := first_idx hflag l.
+
+Lemma cq_snd l : forall i m, snd (cq l i m) = option_map (fun n => (i + n)%nat) (cq_idx l).
+Proof.
+  unfold cq_idx. induction l as [|[[[bl blk] lb]|] r IH]; intros i m; cbn [cq first_idx hflag]; [reflexivity| |].
+  - destruct (snd (lbuf_modified lb)); cbn [snd option_map]; [f_equal; lia|].
+    rewrite IH. destruct (first_idx hflag r); cbn [option_map]; [f_equal; lia|reflexivity].
+  - rewrite IH. destruct (first_idx hflag r); cbn [option_map]; [f_equal; lia|reflexivity].
+Qed.
+Lemma hblocks_cq_hp l : hblocks (cq_hp l) = hblocks l.
+Proof.
+  induction l as [|[[[bl blk] lb]|] r IH]; cbn [cq_hp hflag hbump hblocks]; [reflexivity| |exact IH].
+  destruct (snd (lbuf_modified lb)); cbn [hblocks]; [reflexivity|f_equal; exact IH].
+Qed.
+Lemma hist_ptr_bumped blk lb bh : length blk = LBUF_CELLS -> hist_ptr (bumped blk lb) bh -> hist_ptr blk bh.
+Proof.
+  intros Hl H. unfold hist_ptr, bumped in *. rewrite nth_error_upd_other in H; [exact H|rewrite Hl; unfold LBUF_CELLS, L_useq; lia|unfold L_hist, L_useq; lia].
+Qed.
+Lemma slot_heap_bump B m cs bl blk lb : B <= 2147483647 -> slot_heap B m cs (Some (bl, blk, lb)) ->
+  slot_heap (B + 1) (bump_mem m bl blk lb) cs (Some (bl, bumped blk lb, UndoDefs.bump lb)).
+Proof.
+  intros HB (Hc & R & Hi & Hu). split; [exact Hc|].
+  destruct (tr_lbuf_modified m bl blk lb 0 0 R Hi ltac:(lia)) as [_ R']. split; [exact R'|].
+  destruct Hi as (Hu1 & Hz & Hl & Hs & Hcu & Hn). unfold lbuf_ints, i32 in *. cbn [UndoDefs.bump useq hist hist_u useq_zero useq_last].
+  repeat split; try tauto; lia.
+Qed.
+Lemma sep_mono res res' l : sep res l -> (forall b, In b res' -> In b res) -> sep res' l.
+Proof. intros (Hn & Hr & Hh) Hi. split; [exact Hn|]. split; [|exact Hh]. intros b Hb Hin. apply (Hr b Hb). apply Hi. exact Hin. Qed.
+Lemma slot_heap_mono B B' m cs h : B <= B' -> slot_heap B m cs h -> slot_heap B' m cs h.
+Proof. intros HB H. destruct h as [[[bl blk] lb]|]; [|exact H]. destruct H as (Hc & R & Hi & Hu). split; [exact Hc|split; [exact R|split; [exact Hi|lia]]]. Qed.
+Lemma cq_frame res B : forall l ts i m b, Forall2 (slot_heap B m) ts l -> sep res l -> ~ In b (hblocks l) ->
+  nth_error (fst (cq l i m)) b = nth_error m b.
+Proof.
+  induction l as [|h l IH]; intros ts i m b Hh Hsep Hnin; [reflexivity|].
+  inversion Hh as [|cs h' ts' l' Hx Hrest]; subst. destruct h as [[[bl blk] lb]|]; cbn [cq hblocks] in *.
+  - destruct Hx as (Hlb & R & Hints & Hmax). pose proof (rep_lt _ _ _ _ R) as Hlt.
+    assert (Hb : nth_error (bump_mem m bl blk lb) b = nth_error m b) by (unfold bump_mem; apply mem_upd_other; [exact Hlt|intro E; apply Hnin; left; congruence]).
+    destruct (snd (lbuf_modified lb)); cbn [fst]; [exact Hb|].
+    rewrite (IH ts' (S i) (bump_mem m bl blk lb) b); [exact Hb|apply (heap_tail_frame B res m ts' l bl blk lb Hrest Hsep Hlt)|exact (sep_tail _ _ _ Hsep)|intro E; apply Hnin; right; exact E].
+  - apply (IH ts' (S i) m b Hrest (sep_tail _ _ _ Hsep) Hnin).
+Qed.
+Lemma cq_length res B : forall l ts i m, Forall2 (slot_heap B m) ts l -> sep res l -> length (fst (cq l i m)) = length m.
+Proof.
+  induction l as [|h l IH]; intros ts i m Hh Hsep; [reflexivity|].
+  inversion Hh as [|cs h' ts' l' Hx Hrest]; subst. destruct h as [[[bl blk] lb]|]; cbn [cq] in *.
+  - destruct Hx as (Hlb & R & Hints & Hmax). pose proof (rep_lt _ _ _ _ R) as Hlt.
+    assert (Hb : length (bump_mem m bl blk lb) = length m) by (unfold bump_mem; apply upd_length; exact Hlt).
+    destruct (snd (lbuf_modified lb)); cbn [fst]; [exact Hb|].
+    rewrite (IH ts' (S i) (bump_mem m bl blk lb)); [exact Hb|apply (heap_tail_frame B res m ts' l bl blk lb Hrest Hsep Hlt)|exact (sep_tail _ _ _ Hsep)].
+  - apply (IH ts' (S i) m Hrest (sep_tail _ _ _ Hsep)).
+Qed.
+
+(* after the scan: every slot's struct represents the entry of cq_hp (bumped up to the first modified one), with the bound B + 1 *)
+Lemma cq_heap res B : B <= 2147483647 -> forall l ts i m, Forall2 (slot_heap B m) ts l -> sep res l ->
+  Forall2 (slot_heap (B + 1) (fst (cq l i m))) ts (cq_hp l).
+Proof.
+  intro HB. induction l as [|h l IH]; intros ts i m Hh Hsep; inversion Hh as [|cs h' ts' l' Hx Hrest]; subst; [constructor|].
+  destruct h as [[[bl blk] lb]|]; cbn [cq cq_hp hflag hbump].
+  - pose proof Hx as (Hlb & R & Hints & Hmax). pose proof (rep_lt _ _ _ _ R) as Hlt.
+    pose proof (heap_tail_frame B res m ts' l bl blk lb Hrest Hsep Hlt) as Hrest1.
+    pose proof (slot_heap_bump B m cs bl blk lb HB Hx) as Hx1.
+    destruct (snd (lbuf_modified lb)); cbn [fst].
+    + constructor; [exact Hx1|]. clear -Hrest1. induction Hrest1; constructor; [eapply slot_heap_mono; [|eassumption]; lia|assumption].
+    + constructor; [|apply IH; [exact Hrest1|exact (sep_tail _ _ _ Hsep)]].
+      (* the head stays valid while the later structs are bumped *)
+      destruct Hx1 as (Hc1 & R1 & Hi1 & Hu1). split; [exact Hc1|]. split; [|split; assumption].
+      pose proof (sep_tail _ _ _ Hsep) as Hsep'.
+      destruct Hsep as (Hn & Hr & Hh0). cbn [hblocks] in Hn. inversion Hn as [|? ? Hnin Hn']; subst.
+      apply (lbuf_rep_frame _ _ bl _ _ R1).
+      * apply (cq_frame res B l ts' (S i) _ bl Hrest1); [exact Hsep'|exact Hnin].
+      * intros bh hblk Hp Hb. rewrite (cq_frame res B l ts' (S i) _ bh Hrest1); [exact Hb|exact Hsep'|].
+        intro Hin. apply (Hh0 bl blk lb bh); [left; reflexivity| |right; exact Hin].
+        apply (hist_ptr_bumped blk lb bh); [destruct R; assumption|exact Hp].
+  - constructor; [exact Hx|]. apply IH; [exact Hrest|exact (sep_tail _ _ _ Hsep)].
+Qed.
+
+(* ---- DirtyDefs.quit_tab (the model of the loop) in closed form, and the heap entries against the model table *)
+Section Model.
+  Import DirtyDefs.
+  Definition tflag (s : option ebuf) : bool := match s with Some e => snd (bufs_modified e) | None => false end.
+  Definition bump0T (T : table) : table := match T with x :: r => bumpS x :: r | [] => [] end.
+  Fixpoint tq (T : table) : table := match T with [] => [] | s :: r => if tflag s then bumpS s :: r else bumpS s :: tq r end.
+
+  Lemma switch_tab_eq P b r : switch_tab P b r = switch (bump0T (P ++ Some b :: r)) (length P).
+  Proof.
+    destruct P as [|x p]; [reflexivity|]. cbn [switch_tab app bump0T length]. unfold switch. cbn [nth_error].
+    rewrite nth_error_app2 by lia. rewrite Nat.sub_diag. cbn [nth_error]. f_equal.
+    change (firstn (S (length p)) (bumpS x :: p ++ Some b :: r)) with (bumpS x :: firstn (length p) (p ++ Some b :: r)).
+    change (skipn (S (S (length p))) (bumpS x :: p ++ Some b :: r)) with (skipn (S (length p)) (p ++ Some b :: r)).
+    rewrite firstn_app, Nat.sub_diag, firstn_all, skipn_app. cbn [firstn]. rewrite app_nil_r.
+    rewrite (skipn_all2 p) by lia. replace (S (length p) - length p)%nat with 1%nat by lia. reflexivity.
+  Qed.
+  Lemma quit_tab_spec : forall T pre, quit_tab pre T =
+    match first_idx tflag T with
+    | None => (rev pre ++ tq T, true)
+    | Some n => (switch (bump0T (rev pre ++ tq T)) (length pre + n), false)
+    end.
+  Proof.
+    induction T as [|s r IH]; intro pre; [cbn [quit_tab first_idx tq]; rewrite app_nil_r; reflexivity|].
+    destruct s as [b|]; cbn [quit_tab first_idx tflag tq bumpS].
+    - destruct (bufs_modified b) as [b' fl] eqn:Eb. assert (Eb' : b' = bumpE b) by (unfold bufs_modified in Eb; injection Eb as <- _; reflexivity).
+      cbn [snd]. destruct fl.
+      + rewrite Nat.add_0_r, switch_tab_eq, rev_length. subst b'. reflexivity.
+      + rewrite IH. cbn [rev length]. subst b'. rewrite <- app_assoc. cbn [app].
+        destruct (first_idx tflag r); cbn [option_map]; [|reflexivity]. do 2 f_equal. lia.
+    - rewrite IH. cbn [rev length]. rewrite <- app_assoc. cbn [app].
+      destruct (first_idx tflag r); cbn [option_map]; [|reflexivity]. do 2 f_equal. lia.
+  Qed.
+
+  (* the model table behind a heap: the same slots are empty, the occupied ones carry the state the struct represents (the ghost disk is free) *)
+  Definition ent_tab (h : option hent) (s : option ebuf) : Prop :=
+    match h, s with None, None => True | Some (_, _, lb0), Some e => lb e = lb0 | _, _ => False end.
+  Definition heap_tab (hp : list (option hent)) (T : table) : Prop := Forall2 ent_tab hp T.
+  Definition hbump0 (l : list (option hent)) : list (option hent) := match l with h :: r => hbump h :: r | [] => [] end.
+
+  Lemma ent_tab_flag h s : ent_tab h s -> hflag h = tflag s.
+  Proof. destruct h as [[[bl blk] x]|], s as [e|]; cbn; try tauto. intros <-. reflexivity. Qed.
+  Lemma ent_tab_bump h s : ent_tab h s -> ent_tab (hbump h) (bumpS s).
+  Proof. destruct h as [[[bl blk] x]|], s as [e|]; cbn; try tauto. intros <-. reflexivity. Qed.
+  Lemma heap_tab_cq hp T : heap_tab hp T -> heap_tab (cq_hp hp) (tq T).
+  Proof.
+    induction 1 as [|h s hp T Hx Hr IH]; [constructor|]. cbn [cq_hp tq]. rewrite (ent_tab_flag h s Hx).
+    destruct (tflag s); constructor; try (apply ent_tab_bump; exact Hx); assumption.
+  Qed.
+  Lemma heap_tab_bump0 hp T : heap_tab hp T -> heap_tab (hbump0 hp) (bump0T T).
+  Proof. destruct 1 as [|h s hp T Hx Hr]; [constructor|]. constructor; [apply ent_tab_bump; exact Hx|exact Hr]. Qed.
+
+  (* the scan of the C loop is DirtyDefs.ec_quit_tab without `!`: the same verdict, the same slot, and -- after the bufs_switch of the refusing
+     case: slot 0's buffer bumped once more, slot j moved to the front -- the same table *)
+  Theorem cq_is_quit_tab hp T : heap_tab hp T ->
+    match cq_idx hp with
+    | None => ec_quit_tab false T = (tq T, true) /\ heap_tab (cq_hp hp) (tq T)
+    | Some j => snd (ec_quit_tab false T) = false /\ first_idx tflag T = Some j /\
+                heap_tab (switch (hbump0 (cq_hp hp)) j) (fst (ec_quit_tab false T))
+    end.
+  Proof.
+    intro H. unfold cq_idx, ec_quit_tab. rewrite quit_tab_spec. cbn [rev app length Nat.add].
+    rewrite (first_idx_rel ent_tab hflag tflag hp T H ent_tab_flag).
+    destruct (first_idx tflag T) as [j|]; cbn [fst snd].
+    - split; [reflexivity|]. split; [reflexivity|]. apply Forall2_switch. apply heap_tab_bump0. apply heap_tab_cq. exact H.
+    - split; [reflexivity|]. apply heap_tab_cq. exact H.
+  Qed.
+End Model.
